@@ -63,6 +63,23 @@ def run(chk):
                     break
                 continue
             pts.append((y, v0))
+        if rng.random() < 0.04:      # a probe outside the box (a plotting grid wider than the box, an overshooting line search): later values must not care
+            yo = [b + (b - a) * rng.uniform(0.01, 0.5) if rng.random() < 0.5 else a - (b - a) * rng.uniform(0.01, 0.5) for a, b in zip(lo, hi)]
+            try:
+                pb.Calculate(Point(np.array(yo, dtype=np.double), []), FunctionValue())
+            except Exception:  # noqa
+                pass
+        if fam == 'StronginC3' and rng.random() < 0.5:      # the constraint functions: value into the SUPPLIED holder, which is returned
+            from iOpt.trial import FunctionType
+            j = rng.randrange(3)
+            hv = FunctionValue(FunctionType.CONSTRAINT, j)
+            ref = B.problem('StronginC3').Calculate(Point(np.array(y, dtype=np.double), []), FunctionValue(FunctionType.CONSTRAINT, j)).value
+            outc = pb.Calculate(Point(np.array(y, dtype=np.double), []), hv)
+            chk.evaluations += 1
+            if outc is not hv:
+                found += chk.violation('impure', 'StronginC3 constraint %d: Calculate did not return the supplied value holder' % j, {'kind': 'history', 'family': fam, 'args': kw})
+            elif not (float(hv.value) == float(ref)):
+                found += chk.violation('impure', 'StronginC3 constraint %d at %r: the supplied holder holds %r, a fresh instance gives %r' % (j, list(y), hv.value, ref), {'kind': 'history', 'family': fam, 'args': kw})
         mode = rng.choice(['fresh-array', 'reused-buffer', 'list'])
         if mode == 'reused-buffer':
             buf = buffers.setdefault(len(y), np.zeros(len(y), dtype=np.double))
